@@ -93,6 +93,36 @@ func hugeCases() []*ProgCase {
 		add(fmt.Sprintf("and/%d", k), ref.Call("&&", ref.Ident("b"), ref.Call("==", ref.Call("len", lits(k)), numLit(k))))
 		add(fmt.Sprintf("lazy-user/%d", k), ref.Call("lzIf", ref.Ident("b"), ref.Call("len", lits(k)), numLit(0)))
 	}
+	// a small conditional located after more than 64 KiB of straight-line code
+	for _, k := range []int{21800, 21840, 21841, 21842, 21845, 21850, 22000} {
+		add(fmt.Sprintf("cond-after/%d", k), ref.Call("+", ref.Call("len", lits(k)), ref.Call("if", ref.Ident("b"), numLit(1), numLit(2))))
+		add(fmt.Sprintf("and-after/%d", k), ref.Call("if", ref.Call("&&", ref.Call("==", ref.Call("len", lits(k)), numLit(k)), ref.Ident("b")), numLit(1), numLit(2)))
+	}
+	return out
+}
+
+// spellingCases: one spelling used as field name, variable name, string
+// literal and map key in one program
+func spellingCases() []*ProgCase {
+	var out []*ProgCase
+	env := bridge.NewEnv()
+	env.Put("id", ref.VNum(7))
+	env.Put("b", ref.VBool(true))
+	o := func() *ref.E { return ref.Obj([]string{"id"}, []*ref.E{ref.Num("1", 1)}) }
+	m := func() *ref.E { return ref.Map([]*ref.E{ref.Str("id")}, []*ref.E{ref.Num("2", 2)}) }
+	progs := []*ref.E{
+		ref.CallF(ref.FInfix, "+", ref.Member(o(), "id"), ref.Subscript(m(), ref.Str("id"))),
+		ref.CallF(ref.FInfix, "+", ref.Subscript(m(), ref.Str("id")), ref.Member(o(), "id")),
+		ref.CallF(ref.FInfix, "+", ref.Ident("id"), ref.Member(o(), "id")),
+		ref.CallF(ref.FInfix, "+", ref.Member(o(), "id"), ref.Ident("id")),
+		ref.CallF(ref.FInfix, "+", ref.Call("len", ref.Str("id")), ref.CallF(ref.FInfix, "+", ref.Ident("id"), ref.Member(o(), "id"))),
+		ref.Call("lzIf", ref.Ident("b"), ref.Member(o(), "id"), ref.Subscript(m(), ref.Str("id"))),
+		ref.Call("lzIf", ref.Ident("b"), ref.Subscript(m(), ref.Str("id")), ref.Member(o(), "id")),
+		ref.Call("if", ref.Call("isset", m(), ref.Str("id")), ref.Member(o(), "id"), ref.Ident("id")),
+	}
+	for i, e := range progs {
+		out = append(out, &ProgCase{ID: fmt.Sprintf("spelling/%d", i), Src: ref.Render(e), E: e, Env: env, User: ref.UserFuns()})
+	}
 	return out
 }
 
@@ -107,7 +137,9 @@ func init() {
 			stream(c, "mutant", c.Pick(3000, 60000), opt, user, 1.0, oracleC11)
 			fixedCases(c, wideCases(), oracleC11)
 			fixedCases(c, lazyCases(), oracleC11)
+			fixedCases(c, wideThunkCases(), oracleC11)
 			fixedCases(c, constPadCases(), both)
+			fixedCases(c, spellingCases(), both)
 			fixedCases(c, boundaryCases(), oracleC11)
 			fixedCases(c, hugeCases(), both)
 		},
